@@ -524,7 +524,8 @@ func Explore(body func(), opts Options, onExec func(*Execution) bool) Stats {
 			st.Frontier++
 		} else if e.Outcome == Pruned {
 			st.Pruned++
-			if len(e.Races) > 0 && !onExec(e) {
+			// pruned executions are still shown to the oracle (races seen in the prefix, harness markers)
+			if !onExec(e) {
 				st.Stopped = "oracle"
 				break
 			}
